@@ -442,9 +442,12 @@ def build(prop, thorough, rnd):
         picked, seen = [], set()
         for air in single:
             ps = air["params"]
-            if len(ps) == 1 and ps[0]["dbase"] == "own" and ps[0]["def"] in want and not air["ret"]["present"] and air["doc"] == "one":
-                key = (ps[0]["def"], ps[0]["dstop"])
-                if key not in seen and (ps[0]["dstop"] or ps[0]["def"] in ("intPos", "str")):
+            if len(ps) == 1 and ps[0]["dbase"] == "own" and ps[0]["def"] in want and air["doc"] == "one":
+                # alone, and followed by a return entry (an entry that is not the last one is re-joined differently)
+                r = air["ret"]
+                shape = "alone" if not r["present"] else ("ret" if r["dbase"] == "own" and r["typ"] == "int" and r["def"] == "absent" else None)
+                key = (ps[0]["def"], ps[0]["dstop"], shape)
+                if shape and key not in seen and (ps[0]["dstop"] or ps[0]["def"] in ("intPos", "str")):
                     seen.add(key)
                     picked.append(air)
             if not ps and air["ret"]["present"] and air["ret"]["dbase"] == "own" and air["ret"]["def"] == "code" and air["ret"]["typ"] != "none" \
